@@ -38,6 +38,56 @@
      Spec.elems m     the live prefix slots[0..len) as a list = what iteration
                       yields, in order.
 
+   VOCABULARY OF THE EXTENDED HISTORIES (Proofs/Dict2.v; definitions quoted)
+     Inductive dop2 :=
+     | DBase (o : dop)            (* the 13 operations of Dict.v *)
+     | DDrain (take : nat)        (* drain(), take [take] items, drop the drain *)
+     | DIterAll                   (* iterate: observe every entry *)
+     | DOrInsert (k : K) (v : V)  (* *entry(k).or_insert(v): the value now stored under k *)
+     | DExtend (items : list (K * V)).  (* Extend: the insert loop over items
+                                           (source iterator never panics) *)
+     Inductive dres2 :=
+       RBase (r : dres) | RItems (l : list (K * V)) | RValOf (v : V) | RPanic2.
+     is_panic r       := match r with RPanic => true | _ => false end
+     d_extend n d items : bool * dict   the fold of DInsert over the items; the
+                      first overflow stops it and leaves the state reached so
+                      far (flag true = all items went in):
+       d_extend n d [] = (true, d)
+       d_extend n d ((k, v) :: rest) =
+         if is_panic (fst (dstep n (DInsert k v) d)) then (false, d)
+         else d_extend n (snd (dstep n (DInsert k v) d)) rest
+     THE SPECIFICATION of one step is a RELATION (the order in which drain and
+     iteration yield the associations is unspecified); n is the capacity:
+     Definition dstep2 (n : nat) (o : dop2) (d : dict) (r : dres2) (d' : dict) : Prop :=
+       match o with
+       | DBase o => d' = snd (dstep n o d) /\
+                    r = if is_panic (fst (dstep n o d)) then RPanic2
+                        else RBase (fst (dstep n o d))
+       | DDrain take => d' = [] /\ exists p, Permutation p d /\ r = RItems (firstn take p)
+       | DIterAll => d' = d /\ exists p, Permutation p d /\ r = RItems p
+       | DOrInsert k v =>
+           match d_find d (ck k) with
+           | Some (k0, v0) => r = RValOf v0 /\ d' = d
+           | None => if length d <? n then r = RValOf v /\ d' = d ++ [(k, v)]
+                     else r = RPanic2 /\ d' = d
+           end
+       | DExtend items => d' = snd (d_extend n d items) /\
+                          r = if fst (d_extend n d items) then RBase RUnit else RPanic2
+       end.
+     A run of the relational specification (results rs, final state):
+     Inductive druns2 (n : nat) : list dop2 -> dict -> list dres2 -> dict -> Prop :=
+     | druns2_nil d : druns2 n [] d [] d
+     | druns2_cons o ops d r d' rs df :
+         dstep2 n o d r d' -> druns2 n ops d' rs df ->
+         druns2 n (o :: ops) d (r :: rs) df.
+     mstep2 E debug o the model side: DBase o runs mstep; DDrain take runs
+                      drain, `take` times Drain::next, then Drain::drop;
+                      DIterAll runs iter to the end and dereferences every
+                      yielded reference; DOrInsert runs entry_of, or_insert and
+                      reads the value through the returned reference; DExtend
+                      runs MapOps.extend_loop.  mrun2 / mfinal2 : results /
+                      final world of a history, as mrun / mfinal.
+
    READING GUIDE (clause of the property -> theorem)
      "every return value ... exactly what an ideal finite dictionary of the
       same capacity gives", one call          C01_step_refines
@@ -61,6 +111,25 @@
          C01_drain_empties (dropping the Drain at any point, even when an
          element's Drop panics, leaves an empty well-formed map or, if the
          checked slicing at the start panicked, the untouched one).
+     drain, whole-container iteration, entry(k).or_insert(v) and extend
+      INTERLEAVED with the 13 operations in one history:
+        one call: never UB; a return is one of the results the ideal
+          dictionary allows and the container represents the matching new
+          state; a panic happens exactly where the ideal dictionary says so
+          (RPanic2) and the container then represents the ideal dictionary's
+          state at that point; capacity unchanged          C01_step2_refines
+        any such history from any represented state: a final world exists,
+          the results produced are those of SOME run of the relational
+          specification, whose final state the final container represents
+                                                           C01_run2_refines
+        ... from Map::new(), any capacity                  C01_run2_refines_new
+        the relational specification is conservative over Dict.v: a base
+          operation panics in dstep2 exactly when dstep says RPanic, and then
+          the dictionary is unchanged                      C01_dstep2_base_panic
+          a run of base operations only is exactly drun / dfinal
+                                                           C01_druns2_base
+        the specification of DExtend agrees with the list machine's l_extend
+          used for C03 / C16                               C01_d_extend_l_extend
      "lookups through a borrowed form ... answer exactly like lookups by the
       key"                                                 C01_borrowed_same
         (two queries of the same class: get, get_key_value, get_mut,
@@ -72,16 +141,22 @@
 
    NOT COVERED BY A THEOREM HERE (left to the correspondence check)
      - that MapOps.v/mstep is a faithful transcription of the Rust code;
-     - drain is not a constructor of [dop]: it is specified separately
-       (C01_drain_refines / C01_drain_run_all / C01_drain_empties) and not
-       interleaved inside the histories of C01_run_refines;
+     - (closed) drain is not a constructor of [dop], but it IS a constructor of
+       [dop2]: C01_run2_refines covers histories in which drain (with any
+       `take`), whole-container iteration, entry(k).or_insert(v) and extend are
+       interleaved with the 13 operations.  Remaining limits of dop2: a DDrain
+       always drops its Drain (a forgotten Drain is C10's drain_forgotten), no
+       operation is performed WHILE a drain / iterator is alive (the borrow
+       checker forbids it), DIterAll iterates to the end, the entry API is
+       represented by or_insert only (the other entry methods: C11), and
+       DExtend's source iterator does not panic (C04);
      - DRetain takes a pure, non-panicking closure K -> V -> bool * V
        (panicking closures are property C04's business);
      - Lawful has no clause for Clone / eqV: no operation of C01 calls them.
    ========================================================================== *)
 Require Import Model.Base Model.Slots Model.MapOps Model.Exec.
 Require Import Proofs.Hoare Proofs.Inv Proofs.Spec Proofs.Lawful Proofs.IterSpec Proofs.Dict
-               Proofs.FmtSerde Proofs.Legacy.
+               Proofs.Bulk Proofs.Dict2 Proofs.FmtSerde Proofs.Legacy.
 From Coq Require Import Permutation.
 
 (* -------------------------------------------------------------------------- *)
@@ -260,6 +335,85 @@ Proof. exact (@drain_empties). Qed.
 Print Assumptions C01_drain_empties.
 
 (* -------------------------------------------------------------------------- *)
+(* drain, iteration, entry and extend interleaved with the 13 operations      *)
+Theorem C01_step2_refines :
+  forall (K V Q T : Type) (E : env K V Q T) (debug : bool) (ck : K -> N) (cq : Q -> N),
+  Lawful E ck cq ->
+  forall (n : nat) (o : @dop2 K V Q) (w : world K V T) (d : @dict K V),
+  Abs ck (self w) d ->
+  cap (self w) = n ->
+  match mstep2 E debug o w with
+  | Ok r w' => exists d' : @dict K V,
+                 dstep2 ck cq n o d r d' /\ Abs ck (self w') d' /\ cap (self w') = n
+  | Panic w' => exists d' : @dict K V,
+                  dstep2 ck cq n o d RPanic2 d' /\ Abs ck (self w') d' /\ cap (self w') = n
+  | UB => False
+  end.
+Proof. exact (@step2_refines). Qed.
+Print Assumptions C01_step2_refines.
+
+Theorem C01_run2_refines :
+  forall (K V Q T : Type) (E : env K V Q T) (debug : bool) (ck : K -> N) (cq : Q -> N),
+  Lawful E ck cq ->
+  forall (n : nat) (ops : list (@dop2 K V Q)) (w : world K V T) (d : @dict K V),
+  Abs ck (self w) d ->
+  cap (self w) = n ->
+  exists (wf : world K V T) (df : @dict K V),
+    mfinal2 E debug ops w = Some wf /\
+    druns2 ck cq n ops d (mrun2 E debug ops w) df /\
+    Abs ck (self wf) df /\
+    cap (self wf) = n.
+Proof. exact (@run2_refines). Qed.
+Print Assumptions C01_run2_refines.
+
+Theorem C01_run2_refines_new :
+  forall (K V Q T : Type) (E : env K V Q T) (debug : bool) (ck : K -> N) (cq : Q -> N),
+  Lawful E ck cq ->
+  forall (n : nat) (ops : list (@dop2 K V Q)) (s : T) (lg : list event),
+  let w0 := {| cb := s; log := lg; self := new_map n |} in
+  exists (wf : world K V T) (df : @dict K V),
+    mfinal2 E debug ops w0 = Some wf /\
+    druns2 ck cq n ops [] (mrun2 E debug ops w0) df /\
+    Abs ck (self wf) df /\
+    cap (self wf) = n.
+Proof. exact (@run2_refines_new). Qed.
+Print Assumptions C01_run2_refines_new.
+
+(* the relational specification restricted to the 13 base operations is Dict.v's *)
+Theorem C01_dstep2_base_panic :
+  forall (K V Q : Type) (ck : K -> N) (cq : Q -> N) (n : nat) (o : @dop K V Q)
+         (d d' : @dict K V),
+  dstep2 ck cq n (DBase o) d RPanic2 d' <->
+  fst (dstep ck cq n o d) = RPanic /\ d' = d.
+Proof. exact (@dstep2_base_panic). Qed.
+Print Assumptions C01_dstep2_base_panic.
+
+Theorem C01_druns2_base :
+  forall (K V Q : Type) (ck : K -> N) (cq : Q -> N) (n : nat) (ops : list (@dop K V Q))
+         (d : @dict K V) (rs : list (@dres2 K V)) (df : @dict K V),
+  druns2 ck cq n (List.map DBase ops) d rs df ->
+  rs = List.map (fun r : @dres K V => if is_panic r then RPanic2 else RBase r)
+                (drun ck cq n ops d) /\
+  df = dfinal ck cq n ops d.
+Proof. exact (@druns2_base). Qed.
+Print Assumptions C01_druns2_base.
+
+(* DExtend's specification d_extend and the list machine's Bulk.l_extend agree *)
+Theorem C01_d_extend_l_extend :
+  forall (K V Q : Type) (ck : K -> N) (cq : Q -> N) (n : nat) (items l : list (K * V))
+         (d : @dict K V),
+  Uniq ck l ->
+  Permutation l d ->
+  match l_extend ck n l items with
+  | Some res => fst (d_extend ck cq n d items) = true /\
+                Uniq ck res /\
+                Permutation res (snd (d_extend ck cq n d items))
+  | None => fst (d_extend ck cq n d items) = false
+  end.
+Proof. exact (@d_extend_l_extend). Qed.
+Print Assumptions C01_d_extend_l_extend.
+
+(* -------------------------------------------------------------------------- *)
 (* non-vacuity: the hypotheses are satisfiable, the conclusions say something  *)
 (* a lawful environment exists: the honest scripted environment of Model/Exec.v *)
 Example C01_example_lawful :
@@ -294,4 +448,20 @@ Example C01_example_drun :
         DGet (QCls 5); DIndex (QCls 6); DRemove (QCls 5); DContains (QCls 5)]
        []
   = [RNone; RVal (v_ 2 7); RPanic; RVal (v_ 4 8); RPanic; RVal (v_ 4 8); RBool false].
+Proof. vm_compute. reflexivity. Qed.
+
+(* an interleaved history on a capacity-2 map, release build: two inserts, a
+   third key overflows (panic), entry(class 6).or_insert finds the stored value,
+   drain takes one entry and drops the rest (the map is empty at once), an
+   iteration over the now empty map yields nothing, entry(class 6).or_insert on
+   the empty map inserts its default, and a lookup sees it *)
+Example C01_example_run2 :
+  mrun2 (env_map {| sc_adv := false; sc_seed := 0; sc_fk := 0; sc_fa := 0 |}) false
+        [DBase (DInsert (k_ 1 5) (v_ 2 7)); DBase (DInsert (k_ 3 6) (v_ 4 8));
+         DBase (DInsert (k_ 5 7) (v_ 6 9));
+         DOrInsert (k_ 7 6) (v_ 8 1); DDrain 1; DIterAll;
+         DOrInsert (k_ 9 6) (v_ 10 2); DBase (DGet (QCls 6))]
+        {| cb := cs0; log := []; self := new_map 2 |}
+  = [RBase RNone; RBase RNone; RPanic2; RValOf (v_ 4 8);
+     RItems [(k_ 1 5, v_ 2 7)]; RItems []; RValOf (v_ 10 2); RBase (RVal (v_ 10 2))].
 Proof. vm_compute. reflexivity. Qed.
